@@ -98,10 +98,10 @@ Section AssembleIL.
       eapply IL_app; [|exact Hil]. apply (Hg1 l eq_refl).
   Qed.
 
-  Variables (s e : N) (m : option matched) (ins : list (N * N)) (rs : list child_r).
+  Variables (s e : N) (m : option matched) (ins : list (N * N)) (rs : list child_r) (prod : bool).
   Hypothesis Hgood : Forall (good_r ts) rs.
   Hypothesis Hgood_il : Forall good_il rs.
-  Hypothesis Hwf : WFnode n s e m ins (map fst rs).
+  Hypothesis Hwf : WFnode n s e m ins (map fst rs) prod.
 
   Lemma step_il p cur out cur' out' :
     cur <= p -> p <= n ->
@@ -132,7 +132,7 @@ Section AssembleIL.
     assert (Hd : Forall (fun d => fst (fst d) = p) (filter (fun r => fst (fst r) =? p) rs)).
     { apply Forall_forall. intros d Hd. apply filter_In in Hd as [_ Hd]. now apply N.eqb_eq in Hd. }
     destruct (run_children_il p _ _ _ _ _ Hg Hd
-                (chain_ok_filter fst _ rs (wn_chain _ _ _ _ _ _ Hwf)) (fun _ => eq_refl) Hrun) as (l & Hobs & Hil).
+                (chain_ok_filter fst _ rs (wn_chain _ _ _ _ _ _ _ Hwf)) (fun _ => eq_refl) Hrun) as (l & Hobs & Hil).
     exists (obs_l (map tok_tree gap) ++ obs_l ms ++ l).
     rewrite Hobs, !obs_l_app, <- !app_assoc. split; [reflexivity|].
     eapply IL_app; [exact Hgap|]. eapply IL_app; [exact Hms | exact Hil].
@@ -144,15 +144,15 @@ Section AssembleIL.
     fold_opt (step ts ins rs) ks (cur, out) = Some (cur', out') ->
     exists l, obs_l out' = obs_l out ++ l /\ IL ts cur cur' l.
   Proof.
-    destruct (wn_span _ _ _ _ _ _ Hwf) as [Hse Hen].
+    destruct (wn_span _ _ _ _ _ _ _ Hwf) as [Hse Hen].
     induction ks as [|p ks IH]; intros cur out cur' out' Hsort Hkp Hle Hs He; cbn [fold_opt].
     - intros [= <- <-]. exists []. rewrite app_nil_r. split; [reflexivity | constructor].
     - apply StronglySorted_inv in Hsort as [Hsort Hlt].
       apply Forall_cons_iff in Hkp as [Hkp1 Hkp2]. apply Forall_cons_iff in Hle as [Hle1 Hle2].
-      destruct (step_spec ts s e m ins rs Hgood Hwf p cur out Hkp1 Hs Hle1) as
+      destruct (step_spec ts s e m ins rs prod Hgood Hwf p cur out Hkp1 Hs Hle1) as
         (c1 & o1 & Hstep & Hp1 & He1 & Hnext & _).
       rewrite Hstep. intros Hfold.
-      destruct (KP_bounds ts s e m ins rs Hwf p Hkp1) as [_ Hpe].
+      destruct (KP_bounds ts s e m ins rs prod Hwf p Hkp1) as [_ Hpe].
       destruct (step_il p cur out c1 o1 Hle1 ltac:(fold n; lia) Hstep) as (l1 & Hobs1 & Hil1).
       destruct (IH c1 o1 cur' out' Hsort Hkp2) as (l2 & Hobs2 & Hil2); try lia; auto.
       { rewrite Forall_forall in *. intros k Hk. apply Hnext; [now apply Hkp2 | now apply Hlt]. }
@@ -163,7 +163,7 @@ Section AssembleIL.
   Lemma assemble_il r :
     assemble ts s e m ins rs = Some r -> IL ts s e (obs_l r).
   Proof.
-    destruct (wn_span _ _ _ _ _ _ Hwf) as [Hse Hen].
+    destruct (wn_span _ _ _ _ _ _ _ Hwf) as [Hse Hen].
     unfold assemble.
     set (keys := sort_keys (map fst ins ++ map (fun r => fst (fst r)) rs)).
     assert (Hkeys : forall k, In k keys -> KP ins rs k).
@@ -173,7 +173,7 @@ Section AssembleIL.
     destruct (fold_il keys s [] cur out) as (l & Hobs & Hil); auto; try lia.
     { apply sort_keys_sorted. }
     { apply Forall_forall. exact Hkeys. }
-    { apply Forall_forall. intros k Hk. apply Hkeys in Hk. now apply (KP_bounds ts s e m ins rs Hwf) in Hk. }
+    { apply Forall_forall. intros k Hk. apply Hkeys in Hk. now apply (KP_bounds ts s e m ins rs prod Hwf) in Hk. }
     cbn [obs_l flat_map app] in Hobs.
     pose proof (IL_le _ _ _ _ Hil) as Hsc.
     assert (Htail : forall tail, (if cur <? e then slice ts cur e else Some []) = Some tail ->
@@ -183,10 +183,10 @@ Section AssembleIL.
         intros [= <-] _. eapply IL_slice; [reflexivity | lia | exact Hen].
       - intros [= <-] Hce. assert (cur = e) by lia. subst. constructor. }
     (* cur <= e: from the leaves version *)
-    destruct (fold_spec ts s e m ins rs Hgood Hwf keys s []) as (cur2 & out2 & Hf2 & _ & Hce & _); try lia.
+    destruct (fold_spec ts s e m ins rs prod Hgood Hwf keys s []) as (cur2 & out2 & Hf2 & _ & Hce & _); try lia.
     { apply sort_keys_sorted. }
     { apply Forall_forall. exact Hkeys. }
-    { apply Forall_forall. intros k Hk. apply Hkeys in Hk. now apply (KP_bounds ts s e m ins rs Hwf) in Hk. }
+    { apply Forall_forall. intros k Hk. apply Hkeys in Hk. now apply (KP_bounds ts s e m ins rs prod Hwf) in Hk. }
     rewrite Ef in Hf2. injection Hf2 as <- <-.
     destruct (if cur <? e then slice ts cur e else Some []) as [tail|] eqn:Etail; [|discriminate].
     specialize (Htail tail eq_refl Hce).
@@ -198,7 +198,7 @@ Section AssembleIL.
     - unfold last_opt. destruct (rev (out ++ map tok_tree tail)) as [|t rest] eqn:Er; [discriminate|].
       intros [= <-].
       (* WF: a Newtype match has no inserts and no children: the output is the single token *)
-      destruct (wn_matched _ _ _ _ _ _ Hwf) as (He1 & Hi & Hsp).
+      destruct (wn_matched _ _ _ _ _ _ _ Hwf) as (He1 & Hi & Hsp).
       assert (Hrs : rs = []) by (destruct rs; [reflexivity | discriminate]).
       unfold keys in Ef. rewrite Hi, Hrs in Ef. cbn in Ef. injection Ef as <- <-.
       cbn [app] in *. 
@@ -218,13 +218,16 @@ Proof.
   revert r. induction x as [s e m ins ch IH] using mr_ind'. intros r. cbn [wf apply mr_start mr_end].
   rewrite andb_true_iff, forallb_forall. intros [Hch Hnode] Happ.
   apply wf_node_WFnode in Hnode.
-  eapply (assemble_il ts s e m ins _ _ _ _ r Happ).
-  Unshelve.
-  - apply Forall_forall. intros c Hc. apply in_map_iff in Hc as (c0 & <- & Hc0).
-    destruct (apply_leaves ts c0 (Hch c0 Hc0)) as (l & Hl & Hleaves). exists l. split; assumption.
-  - apply Forall_forall. intros c Hc. apply in_map_iff in Hc as (c0 & <- & Hc0).
-    intros l Hl. cbn [fst snd] in *. rewrite Forall_forall in IH. apply (IH c0 Hc0 l (Hch c0 Hc0) Hl).
-  - rewrite map_map. cbn [fst]. exact Hnode.
+  assert (Hg : Forall (good_r ts) (map (fun c => (mr_start c, mr_end c, apply ts c)) ch)).
+  { apply Forall_forall. intros c Hc. apply in_map_iff in Hc as (c0 & <- & Hc0).
+    destruct (apply_leaves ts c0 (Hch c0 Hc0)) as (l & Hl & Hleaves). exists l. split; assumption. }
+  assert (Hgi : Forall (good_il ts) (map (fun c => (mr_start c, mr_end c, apply ts c)) ch)).
+  { apply Forall_forall. intros c Hc. apply in_map_iff in Hc as (c0 & <- & Hc0).
+    intros l Hl. cbn [fst snd] in *. rewrite Forall_forall in IH. apply (IH c0 Hc0 l (Hch c0 Hc0) Hl). }
+  assert (Hw : WFnode (N.of_nat (length ts)) s e m ins
+                 (map fst (map (fun c => (mr_start c, mr_end c, apply ts c)) ch)) (existsb produces ch)).
+  { rewrite map_map. cbn [fst]. exact Hnode. }
+  exact (assemble_il ts s e m ins _ _ Hg Hgi Hw r Happ).
 Qed.
 
 (** the whole parse tree: tokens 0..n in order, every meta at the boundary it names *)
@@ -244,7 +247,7 @@ Proof.
     pose proof Hwf as Hwf'. unfold wf_root in Hwf'. repeat rewrite andb_true_iff in Hwf'.
     destruct Hwf' as [[Hwfm Hs] He]. apply N.eqb_eq in Hs. apply N.leb_le in He.
     assert (Hsm : mr_start m <= mr_end m).
-    { apply wf_unfold in Hwfm as [_ Hn]. now destruct (wn_span _ _ _ _ _ _ Hn). }
+    { apply wf_unfold in Hwfm as [_ Hn]. now destruct (wn_span _ _ _ _ _ _ _ Hn). }
     pose proof (apply_il ts m matched Hwfm Happ) as Hilm. rewrite Hs in Hilm.
     assert (Hpre : IL ts 0 (start_idx ts) (obs_l (map tok_tree (slice_raw ts 0 (start_idx ts))))).
     { eapply IL_slice; [reflexivity | lia | lia]. }
